@@ -343,6 +343,6 @@ MANIFEST = dict(
          'inside the bound was skipped.',
     note='context bound: 1-3 injected atomic steps; schedules where both threads are mid-operation simultaneously beyond that, '
          'bytecode-level preemption outside the listed functions, and three or more threads are outside the claim; packer '
-         'interleavings are C08.',
+         'interleavings are C08; the injected reader of committer_primary keeps a cached x from an earlier transaction.',
     design_ref='DESIGN.md section 4, C02',
 )
